@@ -40,16 +40,12 @@ class TCPSink(PacketSink, OutMixIn):
 
         self.packet_arrived(packet)
 
-        if len(self.recv_buffer) == 1:
-            # in-order delivery: all data up to but not including
-            # `next_seq_expected' have been received
-            self.next_seq_expected = packet.packet_id + packet.size
-        else:
-            # out-of-order delivery or retransmissions: needs
-            # to go through the receive buffer and find out
-            # what the last in-order packet's sequence number is
+        # cumulative acknowledgement: the end of the contiguous byte prefix [0, n)
+        # received so far, whatever the order, duplication or gaps of the arrivals
+        if self.recv_buffer[0][0] == 0:
             self.next_seq_expected = self.recv_buffer[0][1]
-
+        else:
+            self.next_seq_expected = 0
 
         acknowledgement = Packet(
             packet.time,
